@@ -267,8 +267,11 @@ def spec_correspondence(ctx, cases):
             if raw not in seen:
                 seen.add(raw)
                 items.append(("spec_fields_obs %s%%N" % L.B(raw), twin_fields_obs(raw), ("head", raw)))
+    before = ctx.cov["traces_validated_against_impl"]
     bad = ctx.correspond("spec", L.HEADER, items, shard=400)
+    ctx.cov["traces_validated_against_impl"] = before      # these are reference-vs-twin items, not implementation traces
     ctx.extra["spec_vs_twin_items"] = len(items)
+    ctx.extra["spec_vs_twin_agree"] = len(items) - len(bad or [])
     if bad:
         i, m, im = bad[0]
         ctx.broken.append("correspondence Spec/EnvSpec.v vs its Python twin: %d of %d items differ; first: %r coq=%r twin=%r"
